@@ -56,8 +56,8 @@ Proof.
   destruct (t_fault c); exact I.
 Qed.
 
-Theorem tls_hosthdr_irrelevant cfgd s h hh1 hh2 k cov ce sa ca f :
-  let c1 := mkTls cfgd s h hh1 k cov ce sa ca f in
-  let c2 := mkTls cfgd s h hh2 k cov ce sa ca f in
+Theorem tls_hosthdr_irrelevant cfgd s h hh1 hh2 m1 m2 k cov ce sa ca f :
+  let c1 := mkTls cfgd s h hh1 m1 k cov ce sa ca f in
+  let c2 := mkTls cfgd s h hh2 m2 k cov ce sa ca f in
   tls_connect c1 = tls_connect c2 /\ wire_first c1 = wire_first c2 /\ marker_in_clear c1 = marker_in_clear c2.
 Proof. cbv zeta. repeat split; reflexivity. Qed.
